@@ -61,11 +61,17 @@ class _ConstTime:
     """pool clock: constant, or (tick > 0) advancing by `tick` seconds at every reading, so that idle expiry happens
     inside a schedule deterministically"""
 
-    def __init__(self, t, tick=0):
+    def __init__(self, t, tick=0, script=None):
         self.t = t
         self.tick = tick
+        self.script = list(script or ())      # a wall clock read off a list (it may step backwards: an NTP correction); the last value stays
+        self.n = 0
 
     def time(self):
+        if self.script:
+            self.t = self.script[min(self.n, len(self.script) - 1)]
+            self.n += 1
+            return self.t
         self.t += self.tick
         return self.t
 
@@ -89,7 +95,7 @@ def run_case(case):
         return lk
 
     saved_time = P.time
-    P.time = _ConstTime(1000.0, case.get("tick", 0))
+    P.time = _ConstTime(1000.0, case.get("tick", 0), case.get("clock"))
     net = None
     try:
         if harness == "a":
@@ -328,6 +334,12 @@ def bounded_cases(tier, seed):
         confs.append({"harness": "a", "threads": [["gr", "gr"], ["gr", "gr"]], "max_size": ms, "idle": 5, "tick": 3})
         confs.append({"harness": "a", "threads": [["gr", "ctx"], ["gd", "gr"]], "max_size": ms, "idle": 5, "tick": 4})
         confs.append({"harness": "b", "threads": [["set", "get"], ["get", "set"]], "max_size": ms, "idle": 5, "tick": 3})
+    # a wall clock that steps backwards while connections are out or idle (idle timeout 30 s): readings 100 .. 50 .. 85
+    for a in (1, 2, 3):
+        for b in (1, 2):
+            confs.append({"harness": "a", "threads": [["gr", "gr"], ["gr"]], "max_size": 2, "idle": 30, "clock": [100.0] * a + [50.0] * b + [85.0]})
+            confs.append({"harness": "b", "threads": [["get", "set"], ["get"]], "max_size": 2, "idle": 30, "clock": [100.0] * a + [50.0] * b + [85.0]})
+    confs.append({"harness": "a", "threads": [["gr", "gr"], ["gr", "gr"]], "max_size": 2, "idle": 30, "clock": [100.0, 20.0, 100.0, 55.0, 90.0, 10.0, 85.0, 130.0]})
     for a, b in itertools.combinations_with_replacement(OPS_B, 2):
         for ms in (1, 2):
             conf = {"harness": "b", "threads": [[a], [b]], "max_size": ms}
